@@ -371,7 +371,7 @@ def contact_strengths(rep, prog):
     fi = prog.index(fn)
     n_blocks = 0
     for blk, calls in c07.force_blocks(fn):
-        kind = c07.block_kind(fi, blk)
+        kind = c07.block_kind(fi, calls[0])      # guards of the first force: include the early exits inside the block
         if kind is None:
             continue
         n_blocks += 1
